@@ -5,6 +5,6 @@ d="$1"; p="$2"; shift 2
 cd /repo || exit 2
 if [ -n "$(git status --porcelain)" ]; then echo "/repo not clean"; exit 2; fi
 git apply "$d/patch.diff" || { echo "patch does not apply"; exit 2; }
-cd /verif && timeout 3000 ./check "$p" quick "$@"; rc=$?
+cd /verif && timeout 3000 ./check "$p" quick -evidence-dir /tmp/ev_seed "$@"; rc=$?
 git -C /repo checkout -- . ; git -C /repo clean -fdq
 echo "exit=$rc"
